@@ -667,8 +667,11 @@ def check_kmer_alphabet(ctx, rng, w, codes):
 _FORCED = set()      # trigger classes a probe exercises on purpose
 
 
-def lookup_allowed(ctx, code):
-    return code < BIG or "bucket_lookup_code_ge_2_32" in _FORCED or ctx.allowed("bucket_lookup_code_ge_2_32")
+def lookup_allowed(ctx, w, kind):
+    """table[kmer] / str(table) may be judged: always for KmerTable; for BucketKmerTable only while the
+    k-mer alphabet stays below 2^32 codes unless the known-finding class is open for testing."""
+    return (kind == "kmer" or w.ka.size <= BIG or "bucket_lookup_code_ge_2_32" in _FORCED
+            or ctx.allowed("bucket_lookup_code_ge_2_32"))
 
 
 def check_table(ctx, rng, w, t, model, kind, deep=True):
@@ -721,10 +724,12 @@ def check_table(ctx, rng, w, t, model, kind, deep=True):
         for c in sample[:12]:
             if (c in t) != bool(model.get(c)):
                 ctx.fail("iteration_vs_model", "(%d in table) is %s, reference says %s" % (c, c in t, bool(model.get(c))))
-    ctx.oracle("lookup_vs_model")
+    can_lookup = lookup_allowed(ctx, w, kind)
+    if can_lookup:
+        ctx.oracle("lookup_vs_model")
     for c in (sample if deep else sample[:8]):
-        if not lookup_allowed(ctx, c):
-            continue
+        if not can_lookup:
+            break
         ctx.op("getitem:" + kind)
         rows = t[np.int64(c)] if rng.random() < 0.2 else t[c]
         if rows.ndim != 2 or rows.shape[1] != 2:
@@ -732,7 +737,7 @@ def check_table(ctx, rng, w, t, model, kind, deep=True):
         if sorted(rows_as_tuples(rows)) != sorted(model.get(c, [])):
             ctx.fail("lookup_vs_model", "table[%d] differs from the reference entries" % c,
                      got=sorted(rows_as_tuples(rows))[:40], expected=sorted(model.get(c, []))[:40])
-    if deep and len(exp_kmers) <= 40 and all(lookup_allowed(ctx, c) for c in exp_kmers):
+    if deep and len(exp_kmers) <= 40 and can_lookup:
         ctx.op("str")
         txt = str(t)
         nlines = len(txt.split("\n")) if txt else 0
